@@ -13,6 +13,7 @@ pub mod c05;
 pub mod c06;
 pub mod rolling;
 pub mod c07;
+pub mod c08;
 pub mod frames;
 pub mod hooks;
 pub mod c09;
@@ -50,6 +51,7 @@ pub fn dispatch(prop: &str, tier: &str, seed: u64, only: Option<(String, u64)>) 
         "C05" => c05::run(&mut rep),
         "C06" => c06::run(&mut rep),
         "C07" => c07::run(&mut rep),
+        "C08" => c08::run(&mut rep),
         "C09" => c09::run(&mut rep),
         "C10" => c10::run(&mut rep),
         "C11" => c11::run(&mut rep),
@@ -80,6 +82,7 @@ pub fn child(args: &[String]) -> i32 {
     }
     match args[0].as_str() {
         "c02" => c02::child_main(&args[1..]),
+        "c08crash" => c08::child_crash(&args[1..]),
         _ => 2,
     }
 }
